@@ -52,32 +52,41 @@ type RConn struct {
 func newRConn(w *World, p *memnet.Pair, dir string, peer netip.Addr) *RConn {
 	rc := &RConn{W: w, ID: p.ID, Dir: dir, PeerIP: peer, Pair: p, C: p.End(1)}
 	rc.cond = sync.NewCond(&rc.mu)
+	p.Tap0 = rc.tap
 	go rc.reader()
 	return rc
+}
+
+// tap observes every write corebgp makes on this connection at the moment
+// the transport accepts it (called under the pair lock; must not call back
+// into the pair).
+func (rc *RConn) tap(b []byte) {
+	rc.mu.Lock()
+	for _, m := range rc.parser.Feed(b) {
+		seq := rc.W.Log.Add("rx", rc.PeerIP.String(), rc.ID, m.String(), "")
+		rc.msgs = append(rc.msgs, RMsg{Message: m, Seq: seq, At: rc.W.Now()})
+	}
+	if rc.parser.Err != nil && len(rc.viol) == 0 {
+		v := fmt.Sprintf("conn %d (%s): corebgp wrote bytes that are not a well-formed BGP message stream: %v", rc.ID, rc.Dir, rc.parser.Err)
+		rc.viol = append(rc.viol, v)
+		rc.W.Log.Add("note", rc.PeerIP.String(), rc.ID, "WIRE-VIOLATION", v)
+	}
+	rc.cond.Broadcast()
+	rc.mu.Unlock()
 }
 
 func (rc *RConn) reader() {
 	buf := make([]byte, 8192)
 	for {
-		n, err := rc.C.Read(buf)
+		// the bytes themselves are judged by tap() at write time; the reader
+		// only drains the pipe and notices the end of the connection
+		_, err := rc.C.Read(buf)
 		rc.mu.Lock()
-		if n > 0 {
-			for _, m := range rc.parser.Feed(buf[:n]) {
-				seq := rc.W.Log.Add("rx", rc.PeerIP.String(), rc.ID, m.String(), "")
-				rc.msgs = append(rc.msgs, RMsg{Message: m, Seq: seq, At: rc.W.Now()})
-			}
-			if rc.parser.Err != nil && len(rc.viol) == 0 {
-				v := fmt.Sprintf("conn %d (%s): corebgp wrote bytes that are not a well-formed BGP message stream: %v", rc.ID, rc.Dir, rc.parser.Err)
-				rc.viol = append(rc.viol, v)
-				rc.W.Log.Add("note", rc.PeerIP.String(), rc.ID, "WIRE-VIOLATION", v)
-			}
-		}
 		if err != nil {
 			rc.rdErr = err
 			rc.readerEnd = true
 			if rc.ownClosed {
-				// we closed our own end: our reader may have stopped in the
-				// middle of a message corebgp was still sending; not judged
+				// we closed our own end first: not an EOF caused by corebgp
 			} else {
 				rc.eof = true
 				rc.eofAt = rc.W.Now()
